@@ -2,7 +2,7 @@ import Wal.Model.Wire
 import Wal.Model.Reader
 import Wal.Model.Wawk
 import Wal.Model.WawkParse
-import Wal.Lemmas.Tid
+import Wal.Lemmas.Neu
 /-!
 # `walmodel`: line-protocol driver around the executable model
 
@@ -85,7 +85,8 @@ def step (st : St) (toks : List String) : St × String :=
       let f := match Opt.walEvalF n st0 e with | .ok _ => "1" | .error _ => "0"
       let c := match Res.walEvalC (parseMode flags) n st0 e with | .ok _ => "1" | .error _ => "0"
       let t := match Tid.walEvalT (parseMode flags) n st0 e with | .ok _ => "1" | .error _ => "0"
-      (st, "cov R" ++ r ++ " F" ++ f ++ " C" ++ c ++ " T" ++ t)
+      let nn := match Neu.walEvalN (parseMode flags) n st0 e with | .ok _ => "1" | .error _ => "0"
+      (st, "cov R" ++ r ++ " F" ++ f ++ " C" ++ c ++ " T" ++ t ++ " N" ++ nn)
     | _, _ => (st, "bad-request")
   | ["runreset"] =>
     -- `SEval.reset()` + reload of std: everything as on a fresh interpreter, the loaded traces rewound to index 0
